@@ -306,6 +306,15 @@ ROUND8 = {
 }
 
 
+# round 9 (DESIGN.md 9.13)
+ROUND9 = {
+    "C04": " Round 9: (R2) priority spellings and pooled priority atoms are compiled through enterAnd_filter (helper names free).",
+    "C07": " Round 9: a persistence scenario with 400 dated counters, the oldest being asked for (nothing is pruned).",
+    "C14": " Round 9: (R2) get_all_zfiles is run abstractly over a directory object that records the glob patterns and answers with marker paths: patterns exactly *.zo/*.zot/*.zoq, every marker yielded once.",
+    "C17": " Round 9: indented sub-bullets that look like items, doubled blanks between targets.",
+}
+
+
 def main() -> None:
     props = [json.loads(l) for l in (VERIF / "properties.jsonl").read_text().splitlines() if l.strip()]
     checks = []
@@ -314,7 +323,7 @@ def main() -> None:
         pid = p["id"]
         if pid in CHECKS:
             tech, text, note, ref = CHECKS[pid]
-            text = text + ADDENDA.get(pid, "") + ROUND34.get(pid, "") + ROUND5.get(pid, "") + ROUND6.get(pid, "") + ROUND7.get(pid, "") + ROUND8.get(pid, "") + (METHOD if pid in ("C01", "C02", "C03", "C05", "C06", "C07", "C08", "C09", "C10", "C11", "C12", "C13", "C14", "C15", "C16", "C17", "C18") else "")
+            text = text + ADDENDA.get(pid, "") + ROUND34.get(pid, "") + ROUND5.get(pid, "") + ROUND6.get(pid, "") + ROUND7.get(pid, "") + ROUND8.get(pid, "") + ROUND9.get(pid, "") + (METHOD if pid in ("C01", "C02", "C03", "C05", "C06", "C07", "C08", "C09", "C10", "C11", "C12", "C13", "C14", "C15", "C16", "C17", "C18") else "")
             checks.append(
                 {
                     "property_id": pid,
